@@ -123,7 +123,7 @@ def gen_degenerate_affinity(rng, n, obj):
     return np.ascontiguousarray(A, dtype=float), str(kind)
 
 
-def tie_indicator(obj, ovo, eps, P, A):
+def tie_indicator(obj, ovo, eps, P, A, f32=False):
     """True when a discrete decision of the evaluator (sign at 0, delta == 0 mask) sits on a rounding-level tie:
     the gradient is then not a continuous function of the summation order and is not compared (only required finite)."""
     n, K = P.shape
@@ -138,6 +138,8 @@ def tie_indicator(obj, ovo, eps, P, A):
         else:
             diff = Pc - pi
         a = np.abs(diff)
+        if f32:     # evaluated in float32: a difference below float32 resolution (exact zero included) can get either sign
+            return bool(np.any(a < 1e-5))
         return bool(np.any((a < 1e-13) & (a > 0))) or bool(np.any(a == 0) and not _exact_case(Pc))
     if obj == "mmd":
         nk = A / n ** 2
@@ -152,6 +154,8 @@ def tie_indicator(obj, ovo, eps, P, A):
             a, b, c = (alpha * gamma).sum(0), gamma.sum(0), nk.sum()
             arg = a + c - 2 * b
         scale = float(np.abs(nk).sum() * np.abs(alpha).max() ** 2)     # magnitude of the terms that cancel
+        if f32:
+            return bool(np.any(np.abs(arg) <= 1e-4 * (scale + 1e-300)))
         return bool(np.any(np.abs(arg) <= 1e-9 * (scale + 1e-300))) and not _exact_case(Pc, A)
     return False
 
@@ -921,6 +925,12 @@ def stream_repr(chk, i, rng):
         for part in ref:
             if part not in got or ty in ("list", "tuple"):
                 continue
+            if ty == "float32":
+                # a float32 affinity enters every gradient unconverted: its 1e-7 rounding is amplified without bound by Adam's normalised
+                # step at near-zero gradients and by discrete branches (ReLU masks, hier-prox index, LP vertex): only finiteness is required
+                if not finite(flat_numbers(got[part])):
+                    chk.fail(f"{name}:repr:{tag}:{part}-nonfinite", f"{part} has non-finite values on the {tag} representation ({fam}, {desc})", dict(replay, variant=tag), layer="L3")
+                continue
             sc = part in ("score", "path-score", "path")
             if not same_numbers(ref[part], got[part], tol=1e-5 if f32 else 1e-10, atol=(2e-3 if f32 else 1e-6) * slack if sc else 0.0):
                 chk.fail(f"{name}:repr:{tag}:{part}-differs", f"{part} on the {tag} representation differs from the float64 C-contiguous reference ({fam}, {desc})", dict(replay, variant=tag), layer="L3")
@@ -1016,6 +1026,10 @@ def stream_extreme(chk, i, rng):
     if mlcl:
         desc["mlcl"] = "ml=[[0,1]] cl=[[2,3]]"
     legal = affinity_legal(est, name, X)
+    if name == "KernelRIM" and legal and not affinity_legal(est, name, X, raw=True):
+        # KernelRIM.fit computes its base kernel on X as given: in float32 it overflows at 1e30 and fit raises a clean ValueError (O2's sibling)
+        legal = False
+        chk.dist["extreme:KernelRIM base kernel overflows in the caller's dtype (clean ValueError, only counted)"] += 1
     key = f"{name}:extreme:{dtype}@{scale:g}"
     replay = {"estimator": name, "family": fam, "dtype": dtype, "scale": scale, "params": desc, "path_args": pargs, "X": np.asarray(X, dtype=float).tolist()}
     chk.dist[f"extreme:{dtype}@{scale:g}"] += 1
@@ -1034,6 +1048,18 @@ def stream_extreme(chk, i, rng):
         """predict_proba / predict / score on the data as the caller holds it (float32, integers)."""
         if not typed:
             return
+        if not raw_legal:
+            # the affinity overflows in the caller's dtype although it is finite in float64: outside the property's families (O2), recorded only
+            try:
+                vals = [float(e.score(X))] + ([] if name == "Kauri" else [np.asarray(e.predict_proba(X), dtype=float)])
+                bad_t = not finite(flat_numbers(vals))
+                why = "non-finite score / probabilities"
+            except Exception as ex:  # noqa
+                bad_t, why = True, f"{type(ex).__name__}: {str(ex)[:80]}"
+            if bad_t:
+                observe(chk, "O2", f"score / predict_proba on {X.dtype} X: {why}, where fit(X) is finite and the float64 copy of the same values scores finitely: "
+                                   f"the raw X is handed to the affinity / kernel, which overflows in {X.dtype} (first seen: {name}, scale {scale:g})")
+            return
         if name != "Kauri":
             pt, p64 = np.asarray(e.predict_proba(X), dtype=float), np.asarray(e.predict_proba(X64), dtype=float)
             if not finite(pt) or not same_numbers(pt, p64, tol=1e-5 if X.dtype == np.float32 else 1e-12):
@@ -1042,11 +1068,7 @@ def stream_extreme(chk, i, rng):
             chk.fail(k + ":typed-predict", f"predict on the {X.dtype} data differs from the float64 copy of the same values", replay, layer="L3")
         st, s64 = float(e.score(X)), float(e.score(X64))
         if not np.isfinite(st):
-            if raw_legal:
-                chk.fail(k + ":typed-score-nonfinite", f"score on the {X.dtype} data is {st!r} (float64 copy: {s64!r}) although the affinity is finite in {X.dtype}", replay, layer="L3")
-            else:
-                observe(chk, "O2", f"score(X) with {X.dtype} X is {st!r} where fit(X) is finite and score(X.astype(float64)) = {s64!r}: score hands the raw X to the "
-                                   f"affinity, which overflows in {X.dtype} (first seen: {name}, scale {scale:g})")
+            chk.fail(k + ":typed-score-nonfinite", f"score on the {X.dtype} data is {st!r} (float64 copy: {s64!r}) although the affinity is finite in {X.dtype}", replay, layer="L3")
         elif X.dtype.kind in "iu" and not same_numbers(st, s64, tol=1e-12):
             chk.fail(k + ":typed-score", f"score on the {X.dtype} data ({st!r}) differs from the float64 copy ({s64!r})", replay, layer="L3")
     try:
@@ -1136,11 +1158,16 @@ def stream_gemini_repr(chk, i, rng):
             chk.fail(key + f":{tag}:raises:{type(e).__name__}", f"{label}(P, A) raised {type(e).__name__}: {e} on the {tag} representation ({shape})", dict(replay, variant=tag), layer="L3")
             continue
         f32 = "float32" in tag          # float32 arguments are evaluated in float32: equal at float32 resolution only
-        rt = 1e-4 if f32 else 1e-10
-        slack = (2e-3 if f32 else 1e-6) * (1.0 + float(np.sqrt(np.abs(A).max()))) if obj == "mmd" else 0.0
+        # float32 arguments: the library computes means / products in float32 whatever the values, so every result carries
+        # float32 rounding: 1e-5 relative (1e-10 for the float64-typed representations), plus the sqrt-cancellation allowance
+        # for an MMD whose square vanishes up to rounding, and no gradient comparison when a sign / ==0 decision is a tie at that resolution
+        rt = 1e-5 if f32 else 1e-10
+        slack = 0.0
+        if obj == "mmd":
+            slack = max(4.0 * float(np.sqrt(1.2e-7 * np.abs(A).max())), 2e-3 * (1.0 + float(np.sqrt(np.abs(A).max())))) if f32 else 1e-6 * (1.0 + float(np.sqrt(np.abs(A).max())))
         gmax = float(np.abs(g_ref).max()) if g_ref.size else 0.0
         if not (same_numbers(s, s_ref, rt, slack) and same_numbers(float(np.asarray(s3)), s_ref, rt, slack)
-                and np.asarray(gr).shape == g_ref.shape and (same_numbers(gr, g_ref, rt, rt * gmax) or (obj == "mmd" and tie_indicator(obj, ovo, g.epsilon, P, A))
+                and np.asarray(gr).shape == g_ref.shape and (same_numbers(gr, g_ref, rt, rt * gmax) or (obj in ("mmd", "tv") and tie_indicator(obj, ovo, g.epsilon, P, A, f32=f32))
                                                              # float32 marginals are another LP: the solver may return other (equally optimal) potentials
                                                              or (obj == "ws" and f32 and finite(gr)))):
             chk.fail(key + f":{tag}:differs", f"{label}(P, A) on the {tag} representation differs from the float64 C-contiguous reference ({shape}): {s!r} vs {s_ref!r}", dict(replay, variant=tag), layer="L3")
